@@ -21,8 +21,8 @@ CHECKS = {
   "note": "Termination under every schedule is observed (deadlock detection without timeouts), not proved; the model completes a future atomically, the in-flight protocol between overlapping futures is C13's model.",
  },
  "C11": {
-  "text": "Coq: Eager predicate (at every quiescent point every candidates request implied by obtained dependency information has been issued) with checker proven equivalent (eagerb_spec). The schedule-controlled executor logs every quiescent point of the real solver (Pending without self-wake) on fan-out universes with up to 16 root requirements, unions and nested fan-outs; the extracted checker judges the histories.",
-  "technique": "Coq-verified history checker applied to quiescent-point logs of the implementation under controlled schedules",
+  "text": "Coq: C11_model_eager, about the encoder model for every completion order: at every point of a run, once the dependencies of a solvable have been handled, a candidates future for every package they mention is pending or has completed (tied to encoding.rs clause for clause under gated schedules on fan-out universes). Eager predicate (at every quiescent point every candidates request implied by obtained dependency information has been issued) with checker proven equivalent (eagerb_spec). The schedule-controlled executor logs every quiescent point of the real solver (Pending without self-wake) on fan-out universes with up to 16 root requirements, unions and nested fan-outs; the extracted checker judges the histories.",
+  "technique": "Coq theorem about the encoder model at every intermediate state of every completion order (in clause-for-clause correspondence under gated schedules) + Coq-verified history checker applied to quiescent-point logs of the implementation",
   "note": "Partial by nature: nothing about wall-clock overlap inside the provider; first solves on fresh solvers only.",
  },
  "C12": {
